@@ -133,6 +133,29 @@ def do_op(k, name, a, b, text):
         arr(k, simlib.arrLib())
     elif name == "arr_new_alloc":
         arr(k, simlib.arrNewAlloc(a))
+    elif name == "arr_pat":
+        arr(k, simlib.arrNewPat(a))
+    elif name == "arr_sum":
+        res(k, simlib.arrSum([3 * i for i in range(1, a + 1)]))
+    elif name == "char_grow":
+        res(k, simlib.charGrow(text))
+    elif name == "ref_item":
+        h[a] = simlib.refItem()
+        res(k)
+    elif name == "vec_ret_d":
+        lst = simlib.vecRetD(a)
+        res(k, len(lst), int(sum(lst) * 4))
+    elif name == "bad_arr_sum":
+        lst = [3 * i for i in range(1, a + 1)]
+        if lst:
+            lst[b % len(lst)] = bad_value(b)
+        else:
+            lst = bad_value(b)
+        try:
+            simlib.arrSum(lst)
+            res(k, "NOERROR")
+        except BaseException as e:
+            res(k, "EXC", type(e).__name__)
     # ---- faults: the wrapper must leave through its error path without leaking or crashing
     elif name == "bad_vec_sum":
         lst = list(range(1, a + 1))
@@ -161,7 +184,8 @@ def do_op(k, name, a, b, text):
         calls = [lambda: simlib.strVal(20), lambda: simlib.vecRet(6), lambda: simlib.arrNew(5),
                  lambda: simlib.makeItem(9000 + k), lambda: simlib.vecSum([1, 2, 3, 4]),
                  lambda: simlib.strOwned(30), lambda: simlib.vecAlloc(4), lambda: simlib.strInout("abc"),
-                 lambda: simlib.Item(9100 + k), lambda: simlib.arrNewAlloc(4), lambda: simlib.vecIota()]
+                 lambda: simlib.Item(9100 + k), lambda: simlib.arrNewAlloc(4), lambda: simlib.vecIota(),
+                 lambda: simlib.arrSum([1, 2, 3, 4, 5]), lambda: simlib.arrSum([7]), lambda: simlib.arrNewPat(4)]
         fn = calls[a % len(calls)]
         r = None
         try:
